@@ -79,6 +79,7 @@ def _case(draw, tier):
         n = len(atoms)
         ranks = None
         base = [[i, fm.to_json(B), fm.to_json(A)] for i, (B, A) in enumerate(conds, 1)]
+    atoms = list(draw(st.permutations(atoms)))      # signature order varies from case to case
     pre = draw(st.lists(st.integers(0, (1 << n) - 1), max_size=1 << n, unique=True))
     meta = draw(st.dictionaries(st.text(alphabet="abcxyz_", min_size=1, max_size=6), json_values, max_size=3))
     qs = [draw(gen.conditional(atoms, consts=False)) for _ in range(draw(st.integers(1, 3)))]
